@@ -198,7 +198,7 @@ impl MemoryStore {
         // assumed at every entry) a physical fact rather than a hope
         old(self).cas_id.val() <= final(self).cas_id.val() <= old(self).cas_id.val() + 1, // @ob C02 store.set.counter_moves_by_at_most_one
         post_set(old(self).memory@, old(self).cas_id.val(), old(self).timer.now(), key@, record.value@, record.header.flags, record.header.time_to_live, record.header.cas,
-                 r is Ok, r is Err && r->Err_0 == CacheError::KeyExists, r is Err && r->Err_0 == CacheError::NotFound, if r is Ok { r->Ok_0.cas } else { 0 }, final(self).memory@, final(self).cas_id.val()), // @ob C01,C02,C05 store.set.post_set
+                 r is Ok, r is Err && r->Err_0 == CacheError::KeyExists, r is Err && r->Err_0 == CacheError::NotFound, if r is Ok { r->Ok_0.cas } else { 0 }, final(self).memory@, final(self).cas_id.val()), // @ob C01,C02,C05,C08 store.set.post_set
 //@endfn
 
 //@fn memory_store/store.rs | impl Cache for MemoryStore | delete | ret=r | mutself | safety=C10 | assumed=kani:store_delete
@@ -326,7 +326,7 @@ pub mod store {
         ensures
             mc_frame(*old(self), *final(self)), // @ob C01 memc.set.frame
             post_set(old(self).store.memory@, old(self).store.cas_id.val(), mc_now(*old(self)), key@, record.value@, record.header.flags, record.header.time_to_live, record.header.cas,
-                     r is Ok, r is Err && r->Err_0 == CacheError::KeyExists, r is Err && r->Err_0 == CacheError::NotFound, if r is Ok { r->Ok_0.cas } else { 0 }, final(self).store.memory@, final(self).store.cas_id.val()), // @ob C01,C02,C05 memc.set.post_set
+                     r is Ok, r is Err && r->Err_0 == CacheError::KeyExists, r is Err && r->Err_0 == CacheError::NotFound, if r is Ok { r->Ok_0.cas } else { 0 }, final(self).store.memory@, final(self).store.cas_id.val()), // @ob C01,C02,C05,C08 memc.set.post_set
 //@endfn
 
 //@fn memcache/store.rs | impl MemcStore | get | ret=r | mutself | safety=C10
@@ -557,7 +557,7 @@ pub mod handler {
         ensures
             store::mc_frame(old(self).storage, final(self).storage), // @ob C01 handler.set.frame
             *final(response_header) == resp_header(r), // @ob C11 handler.set.header_out
-            loud_post(Base::Set, payload(rv_set(RK::Set, set_req)), *old(response_header), old(self).storage, final(self).storage, r), // @ob C01,C02,C11,C19,C05 handler.set.loud_post
+            loud_post(Base::Set, payload(rv_set(RK::Set, set_req)), *old(response_header), old(self).storage, final(self).storage, r), // @ob C01,C02,C11,C19,C05,C08 handler.set.loud_post
 //@endfn
 
 //@fn memcache_server/handler.rs | impl BinaryHandler | delete | ret=r | mutself | safety=C10,C08
@@ -955,7 +955,7 @@ pub mod random_policy {
             rp_frame(*old(self), *final(self)), // @ob C15 policy.set.frame
             // C01: with the limit not reached the store behaves exactly as without the policy
             usage(*old(self)) <= old(self).memory_limit ==> post_set(old(self).store.memory@, old(self).store.cas_id.val(), old(self).store.timer.now(), key@, record.value@, record.header.flags, record.header.time_to_live, record.header.cas,
-                 r is Ok, r is Err && r->Err_0 == CacheError::KeyExists, r is Err && r->Err_0 == CacheError::NotFound, if r is Ok { r->Ok_0.cas } else { 0 }, final(self).store.memory@, final(self).store.cas_id.val()), // @ob C01,C15 policy.set.no_pressure_same_as_store
+                 r is Ok, r is Err && r->Err_0 == CacheError::KeyExists, r is Err && r->Err_0 == CacheError::NotFound, if r is Ok { r->Ok_0.cas } else { 0 }, final(self).store.memory@, final(self).store.cas_id.val()), // @ob C01,C15,C08 policy.set.no_pressure_same_as_store
             // C15 accounting, one obligation per case (no memory pressure: nothing evicted)
             usage(*old(self)) <= old(self).memory_limit && r is Ok && !old(self).store.memory@.contains_key(key@)
                 ==> usage(*final(self)) == usage(*old(self)) + 24 + record.value@.len(), // @ob C15 policy.set.new_key_accounted
